@@ -153,6 +153,53 @@ theorem restart_interrupted_keeps_persisted (s : State) (n : Nat) (fulls : List 
       s'.totalTxns = s.totalTxns :=
   restartAborted_pinv s n fulls h
 
+/-- A block that is refused - at the tip, or at any position of the attach list of a
+reorganisation (the verification phase runs before anything is disconnected) - only causes
+reads of the cache: whatever outpoints it makes the node load, the run succeeds, the active
+chain and everything reported stay as they were, and the invariant holds. -/
+theorem refused_block_changes_nothing (s : State) (os : List OutPoint) (h : Inv s) (ht : TT s) :
+    ∃ s', run s (os.map Op.fetch) = some s' ∧ Inv s' ∧ s'.chainRev = s.chainRev ∧
+      (∀ o, abs s'.cache s'.db o = abs s.cache s.db o) ∧ s'.totalTxns = s.totalTxns := by
+  obtain ⟨hok, hch⟩ := histOk_fetches os s.chainRev
+  obtain ⟨s', hr, hi, hc, htt⟩ := run_inv _ s h hok ht
+  rw [hch] at hc
+  refine ⟨s', hr, hi, hc, fun o => by rw [hi.abs_eq, h.abs_eq, hc], ?_⟩
+  unfold TT at ht htt; rw [htt, ht, hc]
+
+/-- Well-formed histories are prefix closed (and suffix closed from the chain reached). -/
+theorem histOk_prefix (c : List Block) (a b : List Op) (h : HistOk c (a ++ b)) : HistOk c a :=
+  ((histOk_append a b c).mp h).1
+
+/-- `crash_inside_reorg_recovers`: the process may die inside a reorganisation, after any number
+`j ≤ n` of committed block disconnections, or after all `n` of them and any number `i` of
+committed attachments (each is one database transaction): the start-up that follows (any
+number of interrupted attempts, any cache size) never asserts and reports exactly the fold of
+the intermediate chain, with the full invariant. -/
+theorem crash_inside_reorg_recovers (s : State) (n j i : Nat) (att : List (Block × Bool))
+    (aborts : List (Nat × List Bool)) (fulls : List Bool) (h : Inv s) (ht : TT s)
+    (hok : HistOk s.chainRev (.detach n :: att.map (fun p => Op.attach p.1 p.2))) (hj : j ≤ n) :
+    (∃ s', run s [.detach j, .restart aborts fulls] = some s' ∧ Inv s' ∧
+      s'.chainRev = s.chainRev.drop j ∧ ∀ o, abs s'.cache s'.db o = utxoOf (s.chainRev.drop j).reverse o) ∧
+    (∃ s', run s (.detach n :: (att.take i).map (fun p => Op.attach p.1 p.2) ++ [.restart aborts fulls]) = some s' ∧
+      Inv s' ∧ ∀ o, abs s'.cache s'.db o = utxoOf s'.chainRev.reverse o) := by
+  constructor
+  · have hok1 : HistOk s.chainRev [.detach j, .restart aborts fulls] :=
+      ⟨Nat.le_trans hj hok.1, trivial, trivial⟩
+    obtain ⟨s', hr, hi, hc, _⟩ := run_inv _ s h hok1 ht
+    refine ⟨s', hr, hi, hc, fun o => ?_⟩
+    rw [utxoOf_reverse, hi.abs_eq, hc]; rfl
+  · have hpre : HistOk s.chainRev (.detach n :: (att.take i).map (fun p => Op.attach p.1 p.2)) := by
+      have : att.map (fun p => Op.attach p.1 p.2) =
+          (att.take i).map (fun p => Op.attach p.1 p.2) ++ (att.drop i).map (fun p => Op.attach p.1 p.2) := by
+        rw [← List.map_append, List.take_append_drop]
+      rw [this, ← List.cons_append] at hok
+      exact histOk_prefix _ _ _ hok
+    have hall : HistOk s.chainRev (.detach n :: (att.take i).map (fun p => Op.attach p.1 p.2) ++ [.restart aborts fulls]) := by
+      rw [histOk_append]
+      exact ⟨hpre, trivial, trivial⟩
+    obtain ⟨s', hr, hi, _, _⟩ := run_inv _ s h hall ht
+    exact ⟨s', hr, hi, fun o => by rw [utxoOf_reverse, hi.abs_eq]⟩
+
 /-- The persistent part of the invariant follows from the invariant. -/
 theorem inv_persistent (s : State) (h : Inv s) : PInv s := h.pinv
 
